@@ -845,6 +845,22 @@ def vec_push(I, st, depth, callee, args, body, ln):
     return Agg(())
 
 
+def vec_pop(I, st, depth, callee, args, body, ln):
+    r = args[0]
+    if isinstance(r, Ref):
+        v = I.load(st, r.alloc, r.path)
+        if isinstance(v, Arr):
+            if not v.e:
+                return none()
+            I.store_to(st, r.alloc, r.path, Arr(v.e[:-1]), False, body, ln)
+            return some(v.e[-1])
+        if isinstance(v, ArrS):
+            n = _vec_len(v)
+            I.store_to(st, r.alloc, r.path, ArrS(v.elem, D.binop("Sub", n, frozenset((0, 1)), "usize") if is_scalar(n) else USIZE_TOP), False, body, ln)
+            return En({NONE: (), SOME: (v.elem,)})
+    return TOP
+
+
 def vec_len(I, st, depth, callee, args, body, ln):
     return _vec_len(deref(I, st, args[0]))
 
@@ -1203,6 +1219,28 @@ def vec_append(I, st, depth, callee, args, body, ln):
     return Agg(())
 
 
+def vec_extend(I, st, depth, callee, args, body, ln):
+    """<Vec<T> as Extend<T>>::extend(&mut vec, iterator or collection)"""
+    r, src = args[0], args[1]
+    if not isinstance(r, Ref):
+        return Agg(())
+    v = I.load(st, r.alloc, r.path)
+    w = I.load(st, src.alloc, src.path) if isinstance(src, Ref) else src
+    it = w if isinstance(w, It) else (_iter_of_value(w) if isinstance(w, (Arr, ArrS)) else It("rep", [TOP]))
+    if isinstance(v, Arr) and it.kind == "exact" and len(v.e) + len(it.items) < MAX_EXACT:
+        nv = Arr(v.e + tuple(it.items))
+    elif isinstance(v, (Arr, ArrS)):
+        ev = _vec_elem(v)
+        for x in it.items:
+            ev = x if ev is BOT else join(ev, x)
+        n = _vec_len(v)
+        nv = ArrS(ev, D.binop("Add", n, len(it.items), "usize") if it.kind == "exact" and is_scalar(n) else USIZE_TOP)
+    else:
+        nv = TOP          # some other collection
+    I.store_to(st, r.alloc, r.path, nv, False, body, ln)
+    return Agg(())
+
+
 def slice_contains(I, st, depth, callee, args, body, ln):
     v = deref(I, st, args[0])
     x = deref(I, st, args[1])
@@ -1357,10 +1395,9 @@ def string_from_str(I, st, depth, callee, args, body, ln):
     return deref(I, st, args[0]) if isinstance(args[0], Ref) else args[0]
 
 
-def default_default(I, st, depth, callee, args, body, ln):
-    ga = callee.get("ga", [])
-    t = ga[0] if ga else ""
-    if t in D.INT_TYPES:
+def _default_of(t):
+    """<T as Default>::default() for the types whose default is fixed by the standard library; None otherwise"""
+    if t in D.INT_TYPES or t in ("bool", "char"):
         return 0
     if t in ("f32", "f64"):
         return Fl(0.0, 0.0, False)
@@ -1368,8 +1405,24 @@ def default_default(I, st, depth, callee, args, body, ln):
         return Arr(())
     if t.startswith("core::option::Option"):
         return none()
-    if t.startswith("core::marker::PhantomData"):
+    if t.startswith("core::marker::PhantomData") or t == "()":
         return Agg(())
+    m = re.match(r"^\[(.+); (\d+)\]$", t)
+    if m and int(m.group(2)) <= 32:
+        e = _default_of(m.group(1))
+        return None if e is None else Arr((e,) * int(m.group(2)))
+    return None
+
+
+def default_default(I, st, depth, callee, args, body, ln):
+    ga = callee.get("ga", [])
+    t = ga[0] if ga else ""
+    if not t:
+        m = re.match(r"^<(.+) as core::default::Default>::default$", str(callee.get("defargs") or callee.get("res") or ""))
+        t = m.group(1) if m else ""
+    v = _default_of(t)
+    if v is not None:
+        return v
     I.ev("unknown_extern", body, ln, callee.get("defargs"))
     return TOP
 
@@ -1406,6 +1459,8 @@ TABLE.update({
     "alloc::boxed::box_assume_init_into_vec_unsafe": box_into_vec,
     "alloc::vec::Vec::<T>::new": vec_new,
     "alloc::vec::Vec::<T, A>::push": vec_push,
+    "core::iter::traits::collect::Extend::extend": vec_extend,
+    "alloc::vec::Vec::<T, A>::pop": vec_pop,
     "alloc::vec::Vec::<T, A>::len": vec_len,
     "alloc::vec::Vec::<T, A>::is_empty": vec_is_empty,
     "alloc::vec::Vec::<T, A>::drain": vec_drain,
